@@ -24,7 +24,8 @@ From Coq Require Import List String Bool PrimFloat Permutation.
 From Verif Require Import Base.Sexp Spec.Grammar Spec.Faithful Proofs.C01_Defs.   (* before C03_Defs: its names win *)
 From Verif Require Import Base.Result Base.Str Base.PyDict Model.Types Model.Domain Model.Exec Spec.Pddl
   Proofs.C03_Spec Proofs.C03_Defs Proofs.C03_Refine Proofs.C03_Main Proofs.C03_Inner Proofs.C03_Examples
-  Corr.Core Proofs.C03_Judge Proofs.C03_Closed Proofs.C03_Parsed Proofs.C03_Seq Proofs.C03_Weak Proofs.C03_WeakModel.
+  Corr.Core Proofs.C03_Judge Proofs.C03_Closed Proofs.C03_Parsed Proofs.C03_Seq Proofs.C03_Weak Proofs.C03_WeakModel
+  Proofs.C03_Shadow Proofs.C03_NoTable.
 Import ListNotations.
 
 (* C03_successor.  For EVERY visiting order of the effect groups and of the universal effects the model returns a
@@ -352,7 +353,63 @@ Theorem C03_inconsistent_model_passes :
                weak_succ_ok s (all_groups eps (d_types d) objs (spec_action a effs) args s) s' = true.
 Proof. exact inconsistent_passes. Qed.
 
+(* ---------- SHADOWING: a quantified variable named like an action parameter / like an enclosing quantified variable ----------
+   Nothing above excludes it (names_ok speaks about the domain's CONSTANTS only): inside the quantifier the name is the object
+   ranged over (Model.Exec binds it last: dset (ga_pm ga) v o; Spec.Pddl innermost: (v, o) :: env), outside the parameter keeps
+   its meaning.  The example is parsed by the model's parser from
+     (:action sweep :parameters (?x - t0) :precondition (and (not (p ?x)))
+       :effect (and (mark ?x) (forall (?x - t0) (when (p ?x) (and (not (p ?x)) (assign (f ?x) 0))))
+                    (when (forall (?x - t0) (and (q ?x))) (done ?x))
+                    (forall (?z - t0) (when (and (r ?z) (forall (?z - t1) (and (p ?z)))) (not (r ?z))))))
+   called as (sweep o0) where (p o1), (p o2) hold and (p o0) does not: every hypothesis of C03_successor holds, the model returns
+   the successor, and in it o1 and o2 - objects OTHER than the argument - are reset while (mark o0), (done o0) speak about the
+   argument (seeded change C03_F, which let the action's own bindings win over the quantified one, is reported by the
+   correspondence check: stream 'shadow' and the shadowing bodies of the small scope). *)
+Theorem C03_shadow_example :
+  names_ok sh_dom sh_act = true /\ dkeys (ma_sig sh_act) = ["?x"] /\ map ue_var (ma_univ sh_act) = ["?x"; "?z"] /\
+  exists s', apply_op sh_dom ex_eps sh_ga (Some sh_objs) false false [1; 0] [1; 0] sh_state = Ok s' /\
+             state_eq s' (successor ex_eps (d_types sh_dom) sh_objs (spec_action sh_act sh_effs) sh_args sh_state) /\
+             atom_in ("p", ["o1"]) (facts s') = false /\ atom_in ("p", ["o2"]) (facts s') = false /\
+             atom_in ("mark", ["o0"]) (facts s') = true /\ atom_in ("done", ["o0"]) (facts s') = true /\
+             fluent_get ("f", ["o0"]) (fluents s') = Some 1%float /\ fluent_get ("f", ["o1"]) (fluents s') = Some 0%float.
+Proof. exact shadow_example. Qed.
+
+(* ---------- an Operator built WITHOUT an object table (problem_objects=None) ----------
+   The library cannot range over anything then: a quantified condition reads true, universal effects are skipped (a warning is
+   logged).  On the model this is EXACTLY the behaviour of the EMPTY table - same state or same exception for every action,
+   state, flags and visiting orders ... *)
+Theorem C03_no_table_is_empty_table :
+  forall (d : mdomain) (eps : float) (ga : gaction) (allow skip : bool) (order uorder : list nat) (s : state),
+    apply_op d eps ga None allow skip order uorder s = apply_op d eps ga (Some []) allow skip order uorder s.
+Proof. exact no_table_is_empty_table. Qed.
+
+(* ... so whatever such a call returns is the PDDL successor of the action WITHOUT its quantified parts (strip_action: every
+   (forall ...) condition replaced by truth, every forall-when dropped - the oracle of the correspondence check for such calls),
+   which is the action's successor over the empty universe (C03_no_table_oracle).
+   This is about None only: an EMPTY table that the caller does hand over ({}: a problem that declares no object) is a table -
+   the Operator ranges over quantification_objects d [] = the domain's constants, and C03_successor applies with objs := d_consts d
+   (seeded change C02_E, 'not problem_objects' for 'is None', is reported by the stream 'object-table' of the check). *)
+Theorem C03_no_table_successor :
+  forall (d : mdomain) (eps : float) (a : maction) (effs : list eff) (args : list string) (ga : gaction)
+         (s s1 : state) (allow : bool) (order uorder : list nat) (objs : objects),
+    denote_effs a = Some effs -> names_ok d a = true ->
+    ground_action d a args = Ok ga ->
+    is_order order (List.length (ga_groups ga)) -> is_order uorder (List.length (ma_univ a)) ->
+    apply_op d eps ga None allow false order uorder s = Ok s1 ->
+    consistent (all_groups eps (d_types d) objs (strip_action (spec_action a effs)) args s) = true ->
+    state_eq s1 (successor eps (d_types d) objs (strip_action (spec_action a effs)) args s).
+Proof. exact no_table_successor. Qed.
+
+Theorem C03_no_table_oracle : forall eps tt objs A args s,
+  successor eps tt objs (strip_action A) args s = successor eps tt [] A args s /\
+  applicable eps tt objs (strip_action A) args s = applicable eps tt [] A args s.
+Proof. exact strip_successor. Qed.
+
 Print Assumptions C03_successor.
+Print Assumptions C03_shadow_example.
+Print Assumptions C03_no_table_is_empty_table.
+Print Assumptions C03_no_table_successor.
+Print Assumptions C03_no_table_oracle.
 Print Assumptions C03_inconsistent_oracle_sound.
 Print Assumptions C03_inconsistent_model_passes.
 Print Assumptions C03_repeated_application.
